@@ -126,6 +126,15 @@ def one_history(res, rng, files, api):
             target[0][rng.choice((1, 2, 77, rng.getrandbits(40)))] = rng.randrange(1, 50)
             target[1][rng.randrange(1, 50)] = 'written-between-parses'
             res.count('tables_dirtied_between_parses')
+        if i and api == 'top' and rng.random() < 0.4:
+            # ... or REPLACES one of the two table attributes of the front end by another dict (only one of them, or
+            # both): the object's tables are whatever its attributes name when the request is made
+            which = rng.choice(('pids_names', 'threads_pids', 'both'))
+            if which in ('pids_names', 'both'):
+                top.pids_names = {} if rng.random() < 0.5 else {31337: 'assigned-between-parses'}
+            if which in ('threads_pids', 'both'):
+                top.threads_pids = {} if rng.random() < 0.5 else {31337: 31337}
+            res.count('table_attributes_replaced_between_parses')
         if api == 'top':
             events, exc = drive(lambda: top.kevents(open_stream(f['data'])))
             tables = (top.threads_pids, top.pids_names)
@@ -382,6 +391,7 @@ def run(ctx):
     res.require('related_map_histories', 10)
     res.require('interleaved_parses', 10)
     res.require('parses_through_the_version_entry_points', 10)
+    res.require('table_attributes_replaced_between_parses', 10)
     res.require('histories_on_one_refilled_stream_object', 10)
     res.require('threaded_parses', 6)
     res.require('deferred_parses_checked', 10)
